@@ -1,7 +1,7 @@
 (** C12: login throttling stops guessing; sessions are valid only until expiry
     or logout.  Only statements here; proofs live in Proofs/RateLimit.v and
     Proofs/Session.v. *)
-From AGH Require Import Base.Run Model.RateLimit Model.Session Proofs.RateLimit Proofs.Session Proofs.AuthPins Gen.AuthPins.
+From AGH Require Import Base.Run Model.RateLimit Model.Session Proofs.RateLimit Proofs.Session Proofs.LimiterCfg Proofs.AuthPins Gen.AuthPins.
 From stdpp Require Import gmap.
 Local Open Scope Z_scope.
 
@@ -297,3 +297,84 @@ Example C12_final_premises_satisfiable :
          [SCheck 1100 ex_sp_upper; SLogout 1150 ex_sp_upper; SRestart 1200].
 Proof. exact final_premises_satisfiable. Qed.
 Print Assumptions C12_final_premises_satisfiable.
+
+(** ** Round 3: the limiter as initUsers builds it from the configuration
+
+    [mk_limiter cfg] is home.go initUsers: a limiter exists iff
+    [auth_attempts > 0 && block_auth_min > 0] (both unsigned), with the
+    one-minute window, [block_auth_min] minutes as int64 nanoseconds
+    ([block_dur]: conversion and multiplication wrap) and the configured
+    limit; [login_opt] / [run_logins_opt] are handleLogin / newCookie with
+    [Auth.rateLimiter] possibly nil.  The blocking theorem for EVERY
+    configuration for which the code's condition creates a limiter: *)
+Theorem C12_block_after_limit_configured :
+  forall (cfg : auth_cfg) (a : bytes), (0 < ac_attempts cfg)%Z -> (0 < ac_block_min cfg)%Z ->
+  exists c : rl_conf, mk_limiter cfg = Some c /\
+    rl_max c = Z.to_N (ac_attempts cfg) /\ rl_ttl c = minute_ns /\ rl_block c = block_dur cfg /\
+    forall (s0 : rl_state) (t0 : Z) (f1 : att) (F' : list att) (fk : att) (G : list att) (x : att),
+      wf_from t0 ((f1 :: F') ++ G ++ [x]) ->
+      burst a (N.to_nat (rl_max c)) (f1 :: F') fk ->
+      a_addr f1 = a ->
+      ~ live (a_now f1) s0 a ->
+      Forall (fun e : att => a_addr e = a -> (a_now e <= a_now2 f1 + rl_ttl c)%Z) F' ->
+      a_addr x = a ->
+      (a_now x < a_now2 fk + rl_block c)%Z ->
+      let s := fst (run_logins_opt (mk_limiter cfg) s0 ((f1 :: F') ++ G)) in
+      exists lft : Z, (0 < lft)%Z /\
+        login_opt (mk_limiter cfg) x s = (rl_cleanup (a_now x) s, L429 lft) /\
+        rl_cleanup (a_now x) s !! a = s !! a /\
+        fst (run_logins_opt (mk_limiter cfg) s0 (f1 :: F')) !! a =
+          Some {| fa_until := (a_now2 fk + rl_block c)%Z; fa_num := rl_max c |}.
+Proof. exact block_after_limit_configured. Qed.
+Print Assumptions C12_block_after_limit_configured.
+
+(** The block lasts the configured number of minutes, at least the window,
+    up to 153722867 minutes (beyond that the int64 multiplication wraps). *)
+Theorem C12_block_duration : forall cfg : auth_cfg,
+  (0 <= ac_block_min cfg <= 153722867)%Z -> block_dur cfg = (ac_block_min cfg * minute_ns)%Z.
+Proof. exact block_dur_exact. Qed.
+Print Assumptions C12_block_duration.
+
+(** Which configurations have no limiter: exactly [auth_attempts: 0] or
+    [block_auth_min: 0]; this is the documented way to switch throttling off.
+    Then every attempt is evaluated. *)
+Theorem C12_throttling_disabled_iff : forall cfg : auth_cfg,
+  mk_limiter cfg = None <-> (ac_attempts cfg <= 0)%Z \/ (ac_block_min cfg <= 0)%Z.
+Proof. exact mk_limiter_absent_iff. Qed.
+Print Assumptions C12_throttling_disabled_iff.
+
+Theorem C12_disabled_config_unthrottled : forall (cfg : auth_cfg) (s : rl_state) (h : list att),
+  (ac_attempts cfg <= 0)%Z \/ (ac_block_min cfg <= 0)%Z ->
+  Forall (fun o => evaluated o = true) (snd (run_logins_opt (mk_limiter cfg) s h)).
+Proof. exact disabled_config_unthrottled. Qed.
+Print Assumptions C12_disabled_config_unthrottled.
+
+(** The source still builds the limiter this way (tools/routes, re-read on
+    every run). *)
+Theorem C12_limiter_construction_code :
+  limiter_cond_both_positive && limiter_built_from_config && limiter_reaches_auth &&
+  limiter_ctor_stores_params && limiter_ttl_is_one_minute = true.
+Proof. exact limiter_construction_as_modelled. Qed.
+Print Assumptions C12_limiter_construction_code.
+
+(** Requiring the block to outlast the window ([blockDur > failedAuthTTL])
+    leaves [block_auth_min: 1] without a limiter. *)
+Example C12_limiter_condition_slip_refuted :
+  cond_code slip_cfg = true /\ mk_limiter_with cond_slip slip_cfg = None /\
+  snd (run_logins_opt (mk_limiter_with cond_slip slip_cfg) ∅ slip_history) = [L403; L403; L403; L200] /\
+  snd (run_logins_opt (mk_limiter slip_cfg) ∅ slip_history) =
+    [L403; L403; L429 (59 * 1000000000); L429 (58 * 1000000000)].
+Proof. exact limiter_condition_slip_refuted. Qed.
+Print Assumptions C12_limiter_condition_slip_refuted.
+
+Example C12_limiter_premises_satisfiable :
+  mk_limiter {| ac_attempts := 5; ac_block_min := 15 |} =
+    Some {| rl_ttl := 60000000000; rl_block := 900000000000; rl_max := 5 |} /\
+  mk_limiter {| ac_attempts := 1; ac_block_min := 1 |} =
+    Some {| rl_ttl := 60000000000; rl_block := 60000000000; rl_max := 1 |} /\
+  mk_limiter {| ac_attempts := 0; ac_block_min := 15 |} = None /\
+  mk_limiter {| ac_attempts := 5; ac_block_min := 0 |} = None /\
+  mk_limiter {| ac_attempts := 5; ac_block_min := 18446744073709551615 |} =
+    Some {| rl_ttl := 60000000000; rl_block := -60000000000; rl_max := 5 |}.
+Proof. exact limiter_premises_satisfiable. Qed.
+Print Assumptions C12_limiter_premises_satisfiable.
